@@ -153,7 +153,7 @@ def attribution(ev):
         vio.append(V('path-order', f'pieces are not in segment order: {tags.tolist()}'))
     if vio:
         return vio, judged  # pieces cannot be grouped by segment: nothing below would be meaningful
-    vals = R.VALS[p['vals']][0]
+    vals = R.integrated_values(p['vals'], 0, nseg)
     for k, s in enumerate(segs):
         ex = s['exact']
         idx = np.nonzero(tags == k)[0]
@@ -179,7 +179,7 @@ def attribution(ev):
                 f = WRAP if (start == grid[0] and all(x == grid[-1] for x in bad)) else None
                 vio.append(V(kind, f'{where}: start {key} {start} lies in cell(s) {[grid[a] for a in adm]} of {grid}, reported {got}', finding=f))
         for j, col in enumerate(tab['sv']):
-            want = R.STATE[j][k]
+            want = R.state_values(j, k + 1)[k]
             if not np.all(col[idx] == want):
                 vio.append(V('state-value', f'{where}: state variable {j} reported {col[idx].tolist()}, start point has {want}'))
         # --- horizontal cells and shares
